@@ -76,7 +76,7 @@ def scope(tier, seed):
                   'empty one, tuples) x 4 atom renamings (names with blanks whose joined label sets collide, '
                   'capitals, look-alikes of constants, p/q swapped) x size<=1 formulas',
          'MED': '40 structures with 5-7 states x A g for g of size 1, a stride of size 2, depth-3 towers',
-         'TOWER': 'a seed-indexed quarter of the 256 depth-4 towers of not/X/F/G over p and of the wide and/or on '
+         'TOWER': 'a seed-indexed eighth of the 256 depth-4 towers of not/X/F/G over p and of the wide and/or on '
                   'the 82 representatives (thorough: the same, other seeds cover the rest)',
          'C': 'representatives of K(3) with labels over {p} (one atom) x all 100 formulas size<=1',
          'D': 'size-3 formulas over {p,q}: block(s) of %d x 82 representatives of K(<=2)' % NB3}
@@ -200,7 +200,7 @@ def run_shard(shard, tier, seed, acc):
         return
     if kind == 'NAMES':
         gs = spaces.path_by_size(0, spaces.LEAVES2) + spaces.path_by_size(1, spaces.LEAVES2)
-        for k in _reps2()[shard[1]:shard[2]] + spaces.kripke_reps(3)[shard[1] * 11::450]:
+        for k in _reps2()[shard[1]:shard[2]] + spaces.kripke_reps(3)[shard[1] * 11::900]:
             sem = Sem(k)
             for Kl, names, m, scheme in named_instances(k):
                 inv = dict((repr(x), i) for i, x in enumerate(names))
@@ -233,7 +233,7 @@ def run_shard(shard, tier, seed, acc):
         acc.sample({'k': k.to_json(), 'formulas': 'A g: size 1, stride of size 2, depth-3 towers'})
         return
     if kind == 'TOWER':
-        gs = spaces.path_towers(4)[(seed % 4)::4] + spaces.wide_props()[(seed % 4)::4]
+        gs = spaces.path_towers(4)[(seed % 8)::8] + spaces.wide_props()[(seed % 8)::8]
         for k in _reps2()[shard[1]:shard[2]]:
             Kl = lib.to_kripke(k)
             for j, g in enumerate(gs):
